@@ -273,6 +273,7 @@ class ProxyClient(object):
         run.nreq += 1
         run.cur_request = [(p.topic, p.partition) for p in payloads]
         run.acks0_err = {}
+        run.lost_app = set()
         d = self._real.send_produce_request(payloads, acks=acks, timeout=timeout, fail_on_error=fail_on_error, callback=callback)
         run.visible[("req", run.nreq)] = d
         d.addBoth(run.deliver, "req", run.nreq)
@@ -310,6 +311,7 @@ class Run2(PL.ImplRun):
         self.cevents = []        # composed-model events (Model/ProducerCompose.v), parallel to self.events
         self.cur_cevent = None
         self.acks0_err = {}
+        self.lost_app = set()     # payloads of the request in flight that a broker APPENDED before its response was lost
         self.last_rid = None
         self.acks0_faults = list(cfg.get("acks0_faults", []))
         PL.ImplRun.__init__(self, cfg, self._make_client)
@@ -467,7 +469,7 @@ class Run2(PL.ImplRun):
             for (t, p, e, _o) in rs:
                 q += [t, p, 0, 0, 0] if e == 0 else [t, p, 1, e, 0]
             for (t, p, k) in fs:
-                q += [t, p, 2, k, 0]
+                q += [t, p, 2, k, 1 if (t, p) in self.lost_app else 0]     # RLost k appended?
             if acks == 0:
                 failed = set((t, p) for (t, p, _k) in fs)
                 for (t, p) in req:
@@ -586,6 +588,9 @@ class Run2(PL.ImplRun):
                 br.done = True
                 br.d.errback(Failure(PL.exc_of_kind(ev[2])))
             self.close_step()
+        elif op == "blose":       # the broker applies the request (appends) and then the response is lost on the way
+            self._lose(ev[1])
+            self.close_step()
         elif op == "ctimer":      # the client's time-out for a silent broker fires
             dc = self.ctimers.get(ev[1])
             if dc is not None and dc in self.clock.calls:
@@ -607,6 +612,19 @@ class Run2(PL.ImplRun):
         if len(self.events) > n0:
             self.idle_after[-1] = not self.busy()
         return None
+
+    def _lose(self, rid):
+        from twisted.python.failure import Failure
+        br = self.breqs.get(rid)
+        if br is None or br.done:
+            return
+        br.done = True
+        q = br.req
+        if q["key"] == 0 and br.expect:
+            for (tn, p, e, _off) in self.cluster.produce(len(self.trace), br.node, q["payloads"], {}):
+                if e == 0:
+                    self.lost_app.add((TOPICS.index(tn), p))
+        br.d.errback(Failure(PL.exc_of_kind(PL.K_CONNLOST)))
 
     def _answer(self, rid, plan):
         br = self.breqs.get(rid)
@@ -686,6 +704,8 @@ def gen_answer(rnd, run, br):
             if bad:
                 return ("bans", br.rid, {"errs": [(t, p, cfg["persist_err"]) for (t, p) in bad]})
             return ("bans", br.rid, None)
+        if prof == "lossy" and r < 0.5 and br.expect:
+            return ("blose", br.rid)
         if prof == "drops" and r < 0.7:
             return ("bfail", br.rid, rnd.choice(DROP_KINDS))
         if prof == "silent" and r < 0.7:
@@ -1044,10 +1064,15 @@ def kv_mids(run, kvs):
                 pass
         elif key is not None and key in bykey:
             sid = bykey[key]
-            for idx, mm in enumerate(run.sends[sid][1]):
-                if mm == val and (sid, idx) not in used and (mm is None or mm == b""):
-                    mid = sid * MID + idx
-                    break
+            cands = [idx for idx, mm in enumerate(run.sends[sid][1]) if mm == val and (mm is None or mm == b"")]
+            free = [idx for idx in cands if (sid, idx) not in used]
+            if cands and not free:
+                # every null / empty message of that send has been seen: a further COPY of the send begins (a retry
+                # after a broker appended and the response was lost puts the payload into the log twice)
+                used -= {(sid, idx) for idx in cands}
+                free = cands
+            if free:
+                mid = sid * MID + free[0]
         if mid >= 0:
             used.add((mid // MID, mid % MID))
         out.append(mid)
